@@ -414,3 +414,5 @@ func vfGenDNSName(t *rapid.T, label string) string {
 	f := byte('a' + rapid.IntRange(0, 25).Draw(t, label+"_fill"))
 	return vfDNSNameOfLen(n, f)
 }
+
+func vfDeadline() time.Time { return time.Now().Add(vfIOTimeout) }
